@@ -320,4 +320,48 @@ theorem step_transfer (w : World) (h : Inv w) (l r : Nat) (add : Bool) :
                 | some il' => exact ⟨rfl, hobs _ _ ho, hinv _ _ hv⟩
                 | none => exact ⟨rfl, ho, hv⟩
 
+theorem step_resetChem (w : World) (h : Inv w) (i c' : Nat) :
+    (w.step (.resetChem i c')).2 = (w.obs.step (.resetChem i c')).2 ∧
+    (w.step (.resetChem i c')).1.obs = (w.obs.step (.resetChem i c')).1 ∧
+    Inv (w.step (.resetChem i c')).1 := by
+  simp only [World.step, PWorld.step, obs_chems_get]
+  have hix : w.obs.ixs = w.ixs := rfl
+  rw [hix]
+  cases hi : w.ixs[i]? with
+  | none => exact ⟨rfl, rfl, h⟩
+  | some ix =>
+    simp only
+    cases hs : w.chems[ix.chem]? with
+    | none => exact ⟨rfl, rfl, h⟩
+    | some s =>
+      cases hs' : w.chems[c']? with
+      | none => exact ⟨rfl, rfl, h⟩
+      | some s' =>
+        simp only [Option.map_some]
+        generalize resetOut ix s.cas c' s'.chem = R
+        obtain ⟨o, out⟩ := R
+        cases o with
+        | none => exact ⟨rfl, rfl, h⟩
+        | some ix' => exact ⟨rfl, rfl, ⟨h.chem, h.mat, h.bound⟩⟩
+
+theorem step_copyIx (w : World) (h : Inv w) (i : Nat) :
+    (w.step (.copyIx i)).2 = (w.obs.step (.copyIx i)).2 ∧
+    (w.step (.copyIx i)).1.obs = (w.obs.step (.copyIx i)).1 ∧
+    Inv (w.step (.copyIx i)).1 := by
+  simp only [World.step, PWorld.step]
+  have hix : w.obs.ixs = w.ixs := rfl
+  rw [hix]
+  cases hi : w.ixs[i]? with
+  | none => exact ⟨rfl, rfl, h⟩
+  | some ix => exact ⟨rfl, rfl, ⟨h.chem, h.mat, h.bound⟩⟩
+
+theorem step_getIndex (w : World) (h : Inv w) (c : Nat) (key : PyKey) :
+    (w.step (.getIndex c key)).2 = (w.obs.step (.getIndex c key)).2 ∧
+    (w.step (.getIndex c key)).1.obs = (w.obs.step (.getIndex c key)).1 ∧
+    Inv (w.step (.getIndex c key)).1 := by
+  simp only [World.step, PWorld.step, obs_chems_get]
+  cases hs : w.chems[c]? with
+  | none => exact ⟨rfl, rfl, h⟩
+  | some s => exact ⟨rfl, rfl, h⟩
+
 end ThermoVerif.Props.C10
